@@ -38,12 +38,8 @@ def truncate_cell(value, max_size):
 def printer(num_rows=10, last_rows=None, fields=None, resources=None,
             header_print=_header_print, table_print=_table_print, max_cell_size=100, **kwargs):
 
-    def func(rows):
+    def print_rows(rows):
         spec = rows.res
-
-        if not ResourceMatcher(resources, spec.descriptor).match(spec.name):
-            yield from rows
-            return
 
         header_print(spec.name, kwargs)
 
@@ -84,5 +80,14 @@ def printer(num_rows=10, last_rows=None, fields=None, resources=None,
         toprint += last
 
         table_print(tabulate(toprint, headers=headers, **kwargs), kwargs)
+
+    def func(package):
+        matcher = ResourceMatcher(resources, package.pkg)
+        yield package.pkg
+        for rows in package:
+            if matcher.match(rows.res.name):
+                yield print_rows(rows)
+            else:
+                yield rows
 
     return func
